@@ -256,6 +256,11 @@ class Check:
                     n_expected -= 1      # the parent carries the verdict
                 continue
             hints = m.get("hints")
+            if m.get("optional") and r["status"] == "unknown":
+                # an attempted obligation beyond the claimed level: left open by the solvers -> recorded, not counted
+                n_expected -= 1
+                self.notes.append("attempted, not discharged (not counted): %s" % name)
+                continue
             if hints and (any(status.get(h) != "proved" for h in hints) or r["status"] != "proved"):
                 tiebreak.append((name, ob, names, r))
                 continue
